@@ -5,6 +5,8 @@ def _c08_nontrivial(t):
     # dec: at least one field/player/objective and at least one delivered datagram; probe: at least one responder answers
     if len(t) >= 9 and t[1] == "dec":
         return (t[3] != "." or t[4] != "." or t[5] != ".") and t[7] != "."
+    if len(t) >= 10 and t[1] == "decw":
+        return (t[3] != "." or t[4] != "." or t[5] != ".") and t[8] != "."
     if len(t) >= 4 and t[1] == "probe":
         return any(r != "x" for r in t[3].split(";"))
     return False
@@ -12,24 +14,54 @@ def _c08_nontrivial(t):
 
 def _c08_extra(results):
     dialects, frags, outs, dup, perm_sets = {}, {}, {}, 0, 0
+    wire = {"decw": 0, "index_gaps": 0, "players_listed_out_of_order": 0, "players_sent_out_of_order": 0,
+            "pairs_of_players_interleaved": 0}
     for inp, out, v, src in results:
         t = inp.split()
-        if len(t) >= 9 and t[1] == "dec":
+        if (len(t) >= 9 and t[1] == "dec") or (len(t) >= 10 and t[1] == "decw"):
+            k = 7 if t[1] == "dec" else 8
             dialects[t[2]] = dialects.get(t[2], 0) + 1
-            n = len(t[8].split(","))
+            n = len(t[k + 1].split(","))
             frags[n] = frags.get(n, 0) + 1
-            order = t[7].split(",")
+            order = t[k].split(",")
             if len(order) != len(set(order)):
                 dup += 1
+        if len(t) >= 10 and t[1] == "decw":
+            wire["decw"] += 1
+            ids, cls = [], []
+            if t[4] != ".":
+                for p in t[4].split("|"):
+                    i, kvs = p.split("=")
+                    ids.append(int(i))
+                    cls += [int(i)] * len(kvs.split(";"))
+            nf = 0 if t[3] == "." else len(t[3].split(";"))
+            if ids and sorted(ids) != list(range(len(ids))):
+                wire["index_gaps"] += 1
+            if ids != sorted(ids):
+                wire["players_listed_out_of_order"] += 1
+            if t[6] != ".":
+                w = [int(x) for x in t[6].split(",")]
+                sent = [cls[j - nf] for j in w if nf <= j < nf + len(cls)]
+                first = []
+                for i in sent:
+                    if i not in first:
+                        first.append(i)
+                if first != sorted(first):
+                    wire["players_sent_out_of_order"] += 1
+                runs = sum(1 for a, b in zip(sent, sent[1:]) if a != b) + (1 if sent else 0)
+                if runs > len(set(sent)):
+                    wire["pairs_of_players_interleaved"] += 1
         k = " ".join(out.split()[:1]) if out.split() and out.split()[0] != "chosen" else "chosen " + out.split()[2]
         outs[k] = outs.get(k, 0) + 1
     return {"dec_by_dialect": dialects, "dec_by_fragment_count": {str(k): frags[k] for k in sorted(frags)},
-            "dec_with_duplicate_delivery": dup, "impl_result_classes": outs}
+            "dec_with_duplicate_delivery": dup, "wire_orders": wire, "impl_result_classes": outs}
 
 
 CFG = {
     "module": "Swat4.Properties.C08",
     "theorems": [
+        "Swat4.C08.accepted_iff",
+        "Swat4.C08.acceptedOf_eq",
         "Swat4.C08.best_response",
         "Swat4.C08.best_response_max",
         "Swat4.C08.best_response_none",
@@ -44,28 +76,36 @@ CFG = {
         "Swat4.C08.inspect_encode",
         "Swat4.C08.C08_collect",
         "Swat4.C08.C08_decode",
+        "Swat4.C08.C08_decode_own_order",
         "Swat4.C08.C08_keeps_reading",
+        "Swat4.C08.C08_players_sorted",
+        "Swat4.C08.C08_players_perm",
+        "Swat4.C08.C08_players_listing",
     ],
     "shards": (8, 16),
     "nontrivial": _c08_nontrivial,
     "extra_evidence": _c08_extra,
     "rule": "dec: random well-formed statuses (realistic SWAT4 field/player/objective names mixed with random names, latin-1 values, "
-            "0..16 players, 0..12 objectives, duplicate field names) encoded by the generator in the dialects vanilla, vanillaq, gs1, am, amq, amn "
-            "(the driver re-encodes with the Lean encodeStatus and insists on byte equality), cut into 1..8 fragments (GS1 between pairs, "
+            "0..16 players, 0..12 objectives, duplicate field names, repeated keys of one player); in two thirds of the cases (`decw`) the players carry explicit "
+            "indexes — contiguous, with gaps (0, 2, 7), or up to MaxInt64 — listed ascending, descending or shuffled, and the pairs are sent in a random wire order "
+            "(canonical / player pairs mingled / server fields, player pairs and objectives all mingled, each keeping only its own relative order); "
+            "encoded by the generator in the dialects vanilla, vanillaq, gs1, am, amq, amn "
+            "(the driver checks that the wire order is one of the status, GS1Spec.wireOfB, re-encodes with the Lean encodeWire and insists on byte equality), cut into 1..8 fragments (GS1 between pairs, "
             "AdminMod anywhere, also between a name and its value), delivered by a scripted UDP responder to the real gs1.Query in random order "
             "with duplicates, in every permutation for 2..4 fragments (5 in the thorough tier), and with one fragment withheld (must time out); "
-            "compared: result class and canonical decoded content against the model, oracle: equals toResponse(status). "
+            "compared: result class and canonical decoded content against the model, oracle: equals toResponse(status), whose players are ascending by index. "
             "probe: 1..4 scripted responders (closed port, garbage, any dialect, hostport equal/different/missing/signed) behind the real "
             "portprober.Probe, answers spaced 40 ms apart in every arrival order; compared: which responder's answer was kept (from the prober's own "
             "debug log) and its dialect; oracle: kept answer is accepted and of maximal dialect. non-trivial = non-empty status delivered / at least one responder answers",
     "assumptions": [
-        "well-formedness of a status stream is defined by Spec/GS1Spec.lean (WfStatus, WfCuts, encodeStatus); the Go generator's encoder is checked against it on every case",
+        "well-formedness of a status stream is defined by Spec/GS1Spec.lean (WfStatus, WireOf, WfCuts, encodeWire); the Go generator's encoder is checked against it on every case",
+        "player indexes on the wire are plain decimals below 2^63 (what the game servers send); other strconv.Atoi spellings (+1, 01, -1) and non-numeric or out-of-range suffixes are outside the quantifier — the model mirrors them (examples at the end of Properties/C08.lean)",
         "arrival order at the port prober is controlled by responder delays 40 ms apart on loopback",
         "datagrams are at most 2048 bytes (longer ones are cut by the read and are outside the property's quantifier)",
     ],
     "trusted_base": COMMON_TRUSTED,
     "manifest": {
-        "text": "Lean theorems over the model of gs1.go and of the port prober's choice. C08_decode: for every well-formed status (Spec/GS1Spec.lean: WfStatus) in the vanilla, vanilla-with-non-numeric-queryid, GS1 mod and three AdminMod variants, cut anywhere between fields (also between a name and its value), delivered in any order with duplicates, the modelled query returns exactly toResponse (fields, players ascending by index with their keys, objectives in order, latin-1 as UTF-8, dialect tag) once every fragment has arrived, and the timeout if one is missing; C08_collect / C08_keeps_reading: reassembly completes exactly when all fragments are there, never earlier; inspect_encode, expand_concat, parse_render/parse_concat: the codec steps; collect_perm / collect_dup: order and duplication independence for any consistent stream; collect_complete_iff / collect_complete_all_arrived: completion = final seen and number of distinct fragment numbers = final's number, which under in-range numbering means all of 1..n arrived. best_response / best_response_max / best_response_none / best_response_perm — the kept answer is an accepted one (hostport = game port) of maximal dialect (GS1 mod > AdminMod > vanilla), ties go to the latest arrival, discovery fails iff nothing is accepted, and the kept dialect is independent of arrival order.",
+        "text": "Lean theorems over the model of gs1.go and of the port prober's choice. C08_decode: for every well-formed status (Spec/GS1Spec.lean: WfStatus; players carry explicit, pairwise different indexes with gaps and in any listing order) sent in ANY wire order (WireOf: the pairs of different players, the server fields and the objectives interleaved at will) in the vanilla, vanilla-with-non-numeric-queryid, GS1 mod and three AdminMod variants, cut anywhere between fields (also between a name and its value), delivered in any order with duplicates, the modelled query returns exactly toResponse (fields, players ascending by index with their keys, objectives in order, latin-1 as UTF-8, dialect tag) once every fragment has arrived, and the timeout if one is missing (C08_decode_own_order: the instance for the servers' own order); C08_players_sorted: the players of the answer are the maps of THE strictly ascending-by-index rearrangement of the status's players (a permutation, sorted, unique), whatever the wire order; C08_players_perm / C08_players_listing: statuses that give every index the same pairs up to order (keys pairwise different) decode to the same players, and the listing order of the players is irrelevant; C08_collect / C08_keeps_reading: reassembly completes exactly when all fragments are there, never earlier; inspect_encode, expand_concat, parse_render/parse_concat: the codec steps; collect_perm / collect_dup: order and duplication independence for any consistent stream; collect_complete_iff / collect_complete_all_arrived: completion = final seen and number of distinct fragment numbers = final's number, which under in-range numbering means all of 1..n arrived. accepted_iff / acceptedOf_eq: an answer is accepted iff strconv.Atoi (the reporter model's independent definition) of its hostport field (core List.lookup, missing = empty string) equals the game port; best_response / best_response_max / best_response_none / best_response_perm — the kept answer is an accepted one (hostport = game port) of maximal dialect (GS1 mod > AdminMod > vanilla), ties go to the latest arrival, discovery fails iff nothing is accepted, and the kept dialect is independent of arrival order.",
         "level_note": "Trusted: Lean kernel; axioms propext, Quot.sound, Classical.choice; Spec/GS1Spec.lean as the definition of a well-formed status stream and of the faithful decoding; the finite differential run (real UDP sockets, real portprober.Probe) as evidence that Model/GS1.lean behaves like gs1.go and portprober.go.",
         "technique": "Lean 4 proof (fold/permutation algebra, codec round trip) + differential correspondence over real UDP sockets",
         "design_ref": "DESIGN.md §5 C08",
